@@ -47,7 +47,7 @@ BAD_ENCODED = {'foreign-letter': 'x', 'letter+32-of-symbol': 'K'}
 
 def bounds(tier, seed):
     return {'max_records': 3 if tier == 'quick' else 4, 'variants': [0, 1] if tier == 'quick' else [0, 1, 2],
-            'k': 'thorough: all 1..size+2 on all 4 configurations; quick: all k on plain+eager, boundary-adjacent and small k on gzip/lazy', 'formats': FMTS}
+            'four_record_files(thorough)': 'variants 0 and 1 only; every k on plain+eager, boundary-adjacent k elsewhere', 'k': 'thorough (<= 3 records): all 1..size+2 on all 4 configurations; quick: all k on plain+eager, boundary-adjacent and small k on gzip/lazy', 'formats': FMTS}
 
 
 def violations_for(fmt, n, tier='thorough', seed=0):
@@ -102,7 +102,7 @@ def shards(tier, seed):
     out = []
     for fmt in FMTS:
         for n in range(2, b['max_records'] + 1):
-            for vs in itertools.product(b['variants'], repeat=n):
+            for vs in itertools.product(b['variants'] if (n <= 3 or tier == 'quick') else b['variants'][:2], repeat=n):
                 if tier == 'quick' and n == 3 and (sum(vs) + seed) % 2:
                     continue      # quick: half of the 3-record files (seed-rotated extension slice)
                 out.append({'fmt': fmt, 'variants': list(vs), 'tier': tier, 'seed': seed})
@@ -165,7 +165,7 @@ def check_file(res, fmt, variants, deadline, tier='thorough', seed=0, only_viol=
                        if 1 <= k <= len(data) + 2)
         for gz in (False, True):
             for lazy in (False, True):
-                ks = all_k if (tier == 'thorough' or (not gz and not lazy)) else sub_k
+                ks = all_k if ((tier == 'thorough' and n <= 3) or (not gz and not lazy)) else sub_k
                 for k in [None] + ks:
                     if deadline.expired():
                         res.capped = True
